@@ -16,6 +16,7 @@ RULE = ("random joint degree distributions over 1..4 topologies (zero components
         "incl. lists without '2-clique' and lists where it is not first; half of the inversions are given the very dict objects the library returned (re-checked afterwards and inverted a second time); random symmetric mixing matrices; clean clique/cycle networks from the "
         "harness builder; non-trivial = >= 2 topologies and >= 3 keys; distinct = SHA-1 of the concrete distribution/matrix/network and names")
 RULE += ("; rounds k-l added: " + 'network cases: in 40% an extractor given only a prefix of the names, its row sums compared with the empirical excess distributions')
+RULE += '; round m: 40% of the algebra cases keep ONE dictionary object that is refilled in place with new probabilities on the same joint degrees and evaluated again (1..2 times)'
 ASSUMPTIONS = ["identities compared at 1e-10", "the inversion clause is asserted only when some joint degree is positive in every topology",
                "network clause uses vertex-transitive motifs (cliques, cycles) where memberships and edge ends are proportional"]
 HEADLINE = ["cases", "excess_checks", "inversion_checks", "inversion_not_applicable", "row_sum_checks", "network_checks", "mean_checks", "names_without_2-clique", "names_2-clique_not_first", "dict_order_differs_from_names", "matrices_configured_through_setters"]
